@@ -252,7 +252,7 @@ def _boxes(tier):
             "       \\/ \\E o1 \\in Ops, o2 \\in Ops : inp = [kind |-> \"vf_hist\", init |-> S0, ops |-> <<o1, o2, G(gv)>>]\n"
             "       \\/ inp = [kind |-> \"vf_hist\", init |-> S0, ops |-> <<G(gv)>>]\n"
             "%s" % ("       \\/ \\E o1 \\in Ops, o2 \\in Ops, o3 \\in Ops : inp = [kind |-> \"vf_hist\", init |-> S0, "
-                    "ops |-> <<G(gv), o1, o2, G((gv + 2) %% 4), o3, G(gv)>>]\n" if big else
+                    "ops |-> <<G(gv), o1, o2, G((gv + 2) % 4), o3, G(gv)>>]\n" if big else
                     "       \\/ (gv = 0 /\\ \\E o1 \\in Ops, o2 \\in {o \\in Ops : o.op \\in {\"copy\", \"deepcopy\", \"pickle\"}}, o3 \\in Ops : "
                     "inp = [kind |-> \"vf_hist\", init |-> S0, ops |-> <<G(0), o1, o2, G(2), o3, G(1)>>])\n")),
         "projector": (
